@@ -23,7 +23,7 @@ RULE = ('Each run generates a DSG spec (selection choices, incompatibilities, de
         'flags; every result must be final, feasible, have the node set of an R-sem-admissible closure and a valid '
         'connection set; errors are only accepted when R-sem admits nothing. evaluations = runs; non-trivial = >= 2 decodes '
         'on a graph with >= 2 admitted architectures; distinct = distinct (spec, mode).')
-WALL_BUDGET = {'quick': 90.0, 'thorough': 1500.0}
+WALL_BUDGET = {'quick': 90.0, 'thorough': 700.0}
 
 
 def jobs(tier, batch_seed):
